@@ -304,8 +304,10 @@ func driveStream(env *fw.Env, sb *streamBeh) *fw.Trace {
 		// other tunnels multiplexed on the same connection, each with its own FrameStream (own
 		// writeMu) and goroutine: only WriteFrame's atomicity keeps their frames apart from ours
 		var par sync.WaitGroup
+		var ownDone atomic.Bool
 		parStarted := false
 		waitPar := func() {
+			ownDone.Store(true)
 			if parStarted {
 				par.Wait()
 			}
@@ -324,8 +326,9 @@ func driveStream(env *fw.Env, sb *streamBeh) *fw.Trace {
 				go func() {
 					defer par.Done()
 					buf := fill(b, maxFrame)
-					for f := 0; f < sb.ParFrames; f++ {
-						n := 1 + prng.Intn(64)
+					// at least ParFrames frames, and for as long as our writer is still writing
+					for f := 0; (f < sb.ParFrames || !ownDone.Load()) && f < 400000; f++ {
+						n := 1 + prng.Intn(700)
 						if sb.ParPl == "M" {
 							n = maxFrame - prng.Intn(2)
 						}
